@@ -10,9 +10,15 @@ import (
 func Run(c *fw.Ctx) {
 	// (a) specialised vs generic paths: the index enumerates routine x option x
 	// width x size, the stream draws the numbers
-	c.Cases("a", c.N(1200, 40000), func(cs *fw.Case) { runA(cs, cs.Index) })
+	c.Cases("a", c.N(60000, 1500000), func(cs *fw.Case) { runA(cs, cs.Index) })
 	// (b) analytic identities: directed list (all small shapes, fully
 	// activated, both orders) then the seeded list
 	c.Cases("b.directed", c.N(len(bTable)*8, len(bTable)*8), func(cs *fw.Case) { runB(cs, cs.Index, true) })
-	c.Cases("b", c.N(len(bTable)*60, len(bTable)*1500), func(cs *fw.Case) { runB(cs, cs.Index, false) })
+	c.Cases("b", c.N(len(bTable)*4000, len(bTable)*100000), func(cs *fw.Case) { runB(cs, cs.Index, false) })
+	// (c) differential against the routine's own float result
+	c.Cases("c.directed", len(cTable)*8, func(cs *fw.Case) { runC(cs, cs.Index, true) })
+	c.Cases("c", c.N(len(cTable)*1500, len(cTable)*40000), func(cs *fw.Case) { runC(cs, cs.Index, false) })
+	// Jacobian / Hessian helpers: 9 receiver types x 2 storages x 2 helpers x
+	// 2 receiver states x 3 argument states = 216 configurations per round
+	c.Cases("c.helpers", c.N(216*20, 216*500), func(cs *fw.Case) { runHelpers(cs, cs.Index) })
 }
